@@ -1836,19 +1836,24 @@ fn copy_short(o: &CopyObs) -> String {
 }
 fn import_obs(b: &[u8]) -> CopyObs {
     let v = b.to_vec();
-    EXTRA_IDS.with(|e| {
-        let mut e = e.borrow_mut();
-        e.clear();
-        if let Some((s, _)) = snap_decode(b) {
-            e.extend(s.nodes.iter().map(|n| n.id.as_u64()));
-            e.extend(s.edges.iter().map(|x| x.id.as_u64()));
+    // the implementation first; the harness decodes the bytes itself (to learn which ids a dump must
+    // look at) only after import_snapshot has accepted them
+    match catch(move || GrafeoDB::import_snapshot(&v).map_err(|e| e.to_string())) {
+        Ok(Ok(db)) => {
+            EXTRA_IDS.with(|e| {
+                let mut e = e.borrow_mut();
+                e.clear();
+                if let Some((s, _)) = snap_decode(b) {
+                    e.extend(s.nodes.iter().map(|n| n.id.as_u64()));
+                    e.extend(s.edges.iter().map(|x| x.id.as_u64()));
+                }
+            });
+            match catch(std::panic::AssertUnwindSafe(|| observe_copy(&db))) {
+                Ok(o) => o,
+                Err(m) => CopyObs::Panic(m),
+            }
         }
-    });
-    match catch(move || match GrafeoDB::import_snapshot(&v) {
-        Ok(db) => observe_copy(&db),
-        Err(e) => CopyObs::Err(e.to_string()),
-    }) {
-        Ok(o) => o,
+        Ok(Err(e)) => CopyObs::Err(e),
         Err(m) => CopyObs::Panic(m),
     }
 }
@@ -1988,21 +1993,27 @@ struct ImportObs {
 }
 fn import_child_main() {
     use std::io::Read as _;
+    use std::io::Write as _;
     let mut bytes = vec![];
     std::io::stdin().read_to_end(&mut bytes).expect("stdin");
     quiet_panics();
-    // the decoder first (it is what import_snapshot calls first): if it takes the process down, nothing is printed
-    let dec = snap_decode(&bytes);
+    // the implementation first; its observation is flushed before the harness decodes the bytes
+    // itself (the harness decoder has no limit either and may be the one that is aborted)
     let obs = import_obs(&bytes);
-    let dt = match &dec {
-        Some((s, n)) => format!("(Some ({}, ({})%nat))", snap_term(s), n),
-        None => "None".into(),
-    };
     let (kind, built) = match &obs {
         CopyObs::Ok(_, l, _, _) => ('O', (l.nodes.len(), l.edges.len())),
         CopyObs::Err(_) => ('E', (0, 0)),
         CopyObs::Panic(_) => ('P', (0, 0)),
         CopyObs::Abort(_) => ('A', (0, 0)),
+    };
+    println!("{} {} {}", kind, built.0, built.1);
+    println!("{}", copy_term(&obs));
+    println!("{}", copy_short(&obs).replace('\n', " "));
+    let _ = std::io::stdout().flush();
+    let dec = snap_decode(&bytes);
+    let dt = match &dec {
+        Some((s, n)) => format!("(Some ({}, ({})%nat))", snap_term(s), n),
+        None => "None".into(),
     };
     let (decoded, version, consumed, max_id, named) = match &dec {
         Some((sn, n)) => {
@@ -2017,10 +2028,8 @@ fn import_child_main() {
         }
         None => (false, 0, 0, false, (0, 0)),
     };
-    println!("{}", copy_term(&obs));
-    println!("{}", copy_short(&obs).replace('\n', " "));
     println!("{}", dt);
-    println!("{} {} {} {} {} {} {} {} {}", kind, decoded, version, consumed, max_id, built.0, built.1, named.0, named.1);
+    println!("{} {} {} {} {} {}", decoded, version, consumed, max_id, named.0, named.1);
 }
 fn import_outside(bytes: &[u8]) -> ImportObs {
     use std::io::Write as _;
@@ -2034,25 +2043,37 @@ fn import_outside(bytes: &[u8]) -> ImportObs {
     let out = ch.wait_with_output().expect("child output");
     let so = String::from_utf8_lossy(&out.stdout).to_string();
     let lines: Vec<&str> = so.lines().collect();
-    if !out.status.success() || lines.len() < 4 {
+    if lines.len() < 3 {
+        // the process died inside import_snapshot
         let se = String::from_utf8_lossy(&out.stderr);
         let first = se.lines().next().unwrap_or("").to_string();
         let o = CopyObs::Abort(format!("{:?}: {}", out.status, first));
         return ImportObs { term: copy_term(&o), short: copy_short(&o), dt: "None".into(), kind: 'A', decoded: false, version: 0, consumed: 0, max_id: false, built: (0, 0), named: (0, 0) };
     }
-    let f: Vec<&str> = lines[3].split(' ').collect();
-    ImportObs {
-        term: lines[0].to_string(),
-        short: lines[1].to_string(),
-        dt: lines[2].to_string(),
-        kind: f[0].chars().next().unwrap_or('A'),
-        decoded: f[1] == "true",
-        version: f[2].parse().unwrap_or(0),
-        consumed: f[3].parse().unwrap_or(0),
-        max_id: f[4] == "true",
-        built: (f[5].parse().unwrap_or(0), f[6].parse().unwrap_or(0)),
-        named: (f[7].parse().unwrap_or(0), f[8].parse().unwrap_or(0)),
+    let k: Vec<&str> = lines[0].split(' ').collect();
+    let mut r = ImportObs {
+        term: lines[1].to_string(),
+        short: lines[2].to_string(),
+        dt: "None".into(),
+        kind: k[0].chars().next().unwrap_or('A'),
+        decoded: false,
+        version: 0,
+        consumed: 0,
+        max_id: false,
+        built: (k[1].parse().unwrap_or(0), k[2].parse().unwrap_or(0)),
+        named: (0, 0),
+    };
+    // (if the child died after the observation it was the harness's own unlimited decoder: the bytes do not decode)
+    if lines.len() >= 5 {
+        let f: Vec<&str> = lines[4].split(' ').collect();
+        r.dt = lines[3].to_string();
+        r.decoded = f[0] == "true";
+        r.version = f[1].parse().unwrap_or(0);
+        r.consumed = f[2].parse().unwrap_or(0);
+        r.max_id = f[3] == "true";
+        r.named = (f[4].parse().unwrap_or(0), f[5].parse().unwrap_or(0));
     }
+    r
 }
 fn case_import(bytes: &[u8], what: &str, tags: Vec<String>, valid_len: usize) -> Case {
     let o = import_outside(bytes);
